@@ -36,6 +36,15 @@ def make_handler(name):
             if req.get("more"):
                 return [{"continues": True, "parameters": {"i": i}} for i in range(n)] + [{"parameters": {"i": n}}]
             return [{"parameters": {"i": n}}]
+        if m == name + ".Slow":
+            # the reply is still outstanding for a while
+            time.sleep(float((p or {}).get("ms", 0)) / 1000.0)
+            if req.get("more"):
+                out = []
+                for i in range(3):
+                    out.append({"continues": True, "parameters": {"i": i}})
+                return out + [{"parameters": {"i": 3}}]
+            return [{"parameters": {"echo": p, "svc": name}}]
         if m == name + ".Bye":
             # reply, then hang up right behind it
             return [{"parameters": {"echo": "y" * int((p or {}).get("n", 0)), "svc": name}}, "close"]
@@ -150,6 +159,25 @@ class Bridge:
         left = self.buf
         self.kill()
         return rc, left
+
+    def vanish_and_wait(self, timeout=20):
+        """the client is gone entirely: both its ends closed; returns the exit status (None = still running)"""
+        for f in (self.p.stdin, self.p.stdout):
+            try:
+                f.close()
+            except OSError:
+                pass
+        t0 = time.time()
+        while self.p.poll() is None and time.time() - t0 < timeout:
+            try:
+                r, _, _ = select.select([self.p.stderr], [], [], 0.1)
+                if r:
+                    self.err += os.read(self.p.stderr.fileno(), 1 << 16)
+            except (OSError, ValueError):
+                time.sleep(0.05)
+        rc = self.p.poll()
+        self.kill()
+        return rc
 
     def kill(self):
         try:
@@ -266,7 +294,11 @@ def main(tier, replay):
                 ifs = ["org.example.a"] if mode == "connect" else names
                 seq = gen_sequence(rng, ifs, rng.range(1, 6), allow_getinfo=False)
                 last = rng.pick(ifs)
-                seq.append((last, {"method": last + ".Echo", "parameters": {"v": "LAST%d" % i}, "oneway": rng.chance(1, 2)}))
+                if i % 3 == 2:
+                    # the client hangs up while the reply to its last call is still outstanding
+                    seq.append((last, {"method": last + ".Slow", "parameters": {"ms": rng.pick([50, 300, 800]), "v": "LAST%d" % i}, "more": rng.chance(1, 2)}))
+                else:
+                    seq.append((last, {"method": last + ".Echo", "parameters": {"v": "LAST%d" % i}, "oneway": rng.chance(1, 2)}))
                 close_early_case(ctx, mode, cmd, seq, table, svcs, rng)
         # the service hangs up right behind its reply while the client keeps its side open and
         # is slow to read: every reply byte the service wrote must still reach the client
@@ -280,6 +312,12 @@ def main(tier, replay):
         # that serves at most 6 connections at a time: whatever the bridge no longer needs it
         # has to let go of, or the 7th call finds no worker
         long_sessions(ctx, varlink, vh, tmp, 60 if tier == "quick" else 600)
+        # the client vanishes (both ends closed) while the reply to its last call is outstanding
+        for mode, cmd in modes.items():
+            if mode == "activate":
+                continue
+            for i in range(6 if tier == "quick" else 100):
+                vanish_case(ctx, mode, cmd, "org.example.a", [50, 300, 800][i % 3], i % 2 == 1)
         if std.poll() is not None:
             ctx.inconc({"standard service died": std.returncode})
         return ctx.finish(60 if tier == "quick" else 3000)
@@ -477,6 +515,23 @@ def long_sessions(ctx, varlink, vh, tmp, ncalls):
         capsvc.wait()
         if res2 is not None:
             res2.stop()
+
+
+def vanish_case(ctx, mode, cmd, name, ms, more):
+    req = {"method": name + ".Slow", "parameters": {"ms": ms}}
+    if more:
+        req["more"] = True
+    b = Bridge(cmd)
+    b.write(json.dumps(req).encode() + b"\0")
+    time.sleep(0.02)
+    rc = b.vanish_and_wait()
+    ctx.case((mode, "client-vanishes", ms, more))
+    ctx.count("client_vanishes_sessions")
+    desc = {"engine": "c18", "mode": mode, "behaviour": "client-vanishes-while-a-reply-is-outstanding", "request": req, "cmd": cmd[1:]}
+    if rc is None:
+        ctx.violation("c18:%s:bridge-does-not-exit" % mode, dict(desc, message="still running 20 s after the client closed both its ends"))
+    elif rc != 0:
+        ctx.violation("c18:%s:abnormal-exit:%s:client-vanishes" % (mode, ("signal%d" % -rc) if rc < 0 else "exit%d" % rc), dict(desc, message="exit status %d; a client hanging up is the normal end of a session" % rc, stderr=b.err.decode("utf-8", "replace")[-400:]))
 
 
 def hangup_case(ctx, mode, cmd, name, n, read_delay, svcs):
